@@ -10,7 +10,7 @@ import (
 )
 
 func init() {
-	register(&Rule{ID: "SCRATCH-1", Doc: "a scratch value is reset before every decode: a local made by newAddressableValue that is handed to an unmarshal function (a call whose parameters are (*jsontext.Decoder, addressableValue, *jsonopts.Struct)) has been given a value (SetZero, Set or a fresh newAddressableValue) since it was last handed out, on every path — in a member loop the previous member's key or value must not be merged into the next one", Run: ruleSCRATCH1})
+	register(&Rule{ID: "SCRATCH-1", Doc: "a scratch value is reset before every decode: a local made by newAddressableValue that is handed to an unmarshal function (a call whose parameters are (*jsontext.Decoder, addressableValue, *jsonopts.Struct)) has been given a value (SetZero, Set or a fresh newAddressableValue) since it was last handed out, on every path — in a member loop the previous member's key or value must not be merged into the next one; and a scratch value that is written back into its container somewhere (Set / SetMapIndex with v.Value) is written back on every path from the decode to a return", Run: ruleSCRATCH1})
 	register(&Rule{ID: "SEENSET-1", Doc: "the set of struct fields already seen only grows: in the methods of uintSet and uintSet64 every assignment to the receiver or one of its fields derives the new value from the old one (append(s.f, ..), s.f[..], |=); insert computes `has` before it sets the bit and returns its negation", Run: ruleSEENSET1})
 	register(&Rule{ID: "POS-2", Doc: "offset and pointer of a SemanticError built around user code describe the same value: in newSemanticErrorWithPosition, whenever the pointer is computed for the next value (depth and length unchanged since before the call) the decoder offset is also that of the next value (InputOffset plus CountNextDelimWhitespace)", Run: rulePOS2})
 	register(&Rule{ID: "NAMES-2", Doc: "the name stack records every object name, whatever the options: no call of Names.ReplaceLastQuotedOffset / replaceLastUnquotedName sits under a test of a validation option (AllowDuplicateNames, AllowInvalidUTF8), and each token-level writer/reader that inserts a name into the current namespace also records it in the name stack", Run: ruleNAMES2})
@@ -82,9 +82,36 @@ func ruleSCRATCH1(c *Ctx) {
 			}
 			return o, true
 		}
-		type st struct{ fresh uint16 }
+		type st struct{ fresh, pending uint16 }
 		bad := map[token.Pos]types.Object{}
 		sites := map[token.Pos]types.Object{}
+		// scratch values that are written back into their container somewhere (`X.Set(v.Value)`,
+		// `X.SetMapIndex(k, v.Value)`): after a decode into them every path to a return must do so
+		storedBack := func(call *ast.CallExpr) (types.Object, bool) {
+			sel, ok := ast.Unparen(call.Fun).(*ast.SelectorExpr)
+			if !ok || (sel.Sel.Name != "Set" && sel.Sel.Name != "SetMapIndex") || len(call.Args) == 0 {
+				return nil, false
+			}
+			vs, ok := ast.Unparen(call.Args[len(call.Args)-1]).(*ast.SelectorExpr)
+			if !ok || vs.Sel.Name != "Value" {
+				return nil, false
+			}
+			o := IdentObj(info, vs.X)
+			if _, ok := idx[o]; !ok {
+				return nil, false
+			}
+			return o, true
+		}
+		var storable uint16
+		InspectNoLit(f.Body(), func(nd ast.Node) bool {
+			if call, ok := nd.(*ast.CallExpr); ok {
+				if o, ok := storedBack(call); ok {
+					storable |= 1 << idx[o]
+				}
+			}
+			return true
+		})
+		lost := map[types.Object]token.Pos{}
 		visit := func(nd ast.Node, s st) st {
 			// assignments first: x = newAddressableValue(..)
 			if as, ok := nd.(*ast.AssignStmt); ok {
@@ -103,6 +130,11 @@ func ruleSCRATCH1(c *Ctx) {
 						bad[call.Pos()] = o
 					}
 					s.fresh &^= 1 << idx[o]
+					s.pending |= 1 << idx[o] & storable
+					continue
+				}
+				if o, ok := storedBack(call); ok {
+					s.pending &^= 1 << idx[o]
 					continue
 				}
 				if sel, ok := ast.Unparen(call.Fun).(*ast.SelectorExpr); ok && (sel.Sel.Name == "SetZero" || sel.Sel.Name == "Set") {
@@ -116,13 +148,32 @@ func ruleSCRATCH1(c *Ctx) {
 		fl := &Flow[st]{Fn: f}
 		fl.Node = func(nd ast.Node, s st) []st {
 			s = visit(nd, s)
-			if _, ok := nd.(*ast.ReturnStmt); ok {
+			if r, ok := nd.(*ast.ReturnStmt); ok {
+				for o, k := range idx {
+					if s.pending&(1<<k) != 0 {
+						if _, seen := lost[o]; !seen {
+							lost[o] = r.Pos()
+						}
+					}
+				}
 				return nil
 			}
 			return []st{s}
 		}
 		fl.Leaf = func(e ast.Expr, s st) (t, fs []st) { s = visit(e, s); return []st{s}, []st{s} }
 		fl.Run(st{})
+		for _, o := range order {
+			if storable&(1<<idx[o]) == 0 {
+				continue
+			}
+			n++
+			pos, isLost := lost[o]
+			if !isLost {
+				pos = o.Pos()
+			}
+			c.Oblige(fmt.Sprintf("stored-back:%s:%s", f.Name, o.Name()), pos, !isLost,
+				"after decoding into the scratch value "+o.Name()+" this return is reached without writing it back into its container (Set / SetMapIndex): what was decoded — a new slice header, a replaced map entry — is dropped and the container keeps the old contents")
+		}
 		var ps []token.Pos
 		for q := range sites {
 			ps = append(ps, q)
